@@ -249,6 +249,14 @@ impl Check {
         let mut known_hits: Vec<String> = Vec::new();
         let mut lines: Vec<String> = Vec::new();
         let findings = std::mem::take(&mut self.findings);
+        // the replay directory mirrors the last run of this property: stale witnesses are removed
+        if let Ok(rd) = std::fs::read_dir(root.join("replays").join(self.prop)) {
+            for e in rd.flatten() {
+                if e.path().extension().is_some_and(|x| x == "json") {
+                    let _ = std::fs::remove_file(e.path());
+                }
+            }
+        }
         for f in &findings {
             if let Some(k) = self.is_known(&f.clause, &f.witness) {
                 if !known_hits.contains(&k.id) {
